@@ -46,10 +46,10 @@ def run(v):
         p = subprocess.run(["patch", "-p1", "-s", "--no-backup-if-mismatch", "-i", patch], cwd=src, stdout=subprocess.PIPE, stderr=subprocess.STDOUT, text=True)
         if p.returncode != 0:
             return (pid, name, "SKIP(patch does not apply)", p.stdout.strip()[:200])
-        b = subprocess.run(["go", "build", "./..."], cwd=src, env=env, stdout=subprocess.PIPE, stderr=subprocess.STDOUT, text=True)
-        if b.returncode != 0:
-            return (pid, name, "SKIP(does not build)", b.stdout.strip()[:300])
+        # no separate `go build`: the analyser type-checks every package and reports a tree that does not compile as BROKEN
         c = subprocess.run([f"{ROOT}/bin/mtailsa", "check", "-property", pid, "-tier", "quick", "-root", src, "-verif", vd], env=env, stdout=subprocess.PIPE, stderr=subprocess.STDOUT, text=True)
+        if c.returncode == 2 and "cannot load" in c.stdout:
+            return (pid, name, "SKIP(does not build)", c.stdout.strip()[:300])
         fails = [l for l in c.stdout.splitlines() if l.startswith("FAILED") or l.startswith("UNDECIDED")]
         st = {0: "MISSED", 1: "detected", 2: "BROKEN(undecided)"}.get(c.returncode, f"rc={c.returncode}")
         return (pid, name, st, " ;; ".join(f[:230] for f in fails[:3]))
